@@ -24,7 +24,8 @@ SPEC = {'id': 'C01',
          '(MB in thorough) in both directions and per-session generated carrier faults: cut after a byte budget '
          'upstream or downstream (before the first byte, inside the preface, inside a frame, mid-stream), freezes, '
          'delayed redials, then working carriers; plus carriers without token; non-trivial = the session used more '
-         'than one carrier; distinct = distinct (class, session description)',
+         'than one carrier; distinct = distinct (class, session description)'
+         ' Also: outage during a bulk download (carrier cut after 256 KiB, no proxy for 5 s), and a frozen proxy (real peer built by NewWebRTCPeerWithEvents against an in-process pion proxy that echoes 1.5 s and then goes silent with its data channel open while the client keeps writing: the peer must be given up within SnowflakeTimeout).',
  'level_text': 'Proof-partial. Kernel-checked: framing is prefix-closed (a cut at any byte offset yields exactly the '
                'packets before it), so the server hands the peer KCP an in-order, byte-identical prefix of what the '
                'client KCP wrote on each carrier (honest_lossy_upstream, over the C05 server model), and symmetrically '
